@@ -337,9 +337,14 @@ pub fn generate(sink: &mut Sink, rng: &mut Rng, n: u64, op: &str) {
         }
         // integer-only signatures: the full cross product of the critical integers (overflow pairs such
         // as (i64::MIN, -1) are too rare in the random stream)
-        let req: Vec<_> = f.parameters().iter().filter(|p| p.required).collect();
+        let all: Vec<_> = f.parameters().iter().collect();
+        let req: Vec<_> = if (1..=2).contains(&all.len()) && all.iter().all(|p| p.kind & K_INTEGER != 0) {
+            all // optional integer parameters too (`format_int(value, base)`)
+        } else {
+            f.parameters().iter().filter(|p| p.required).collect()
+        };
         if (1..=2).contains(&req.len()) && req.iter().all(|p| p.kind & K_INTEGER != 0) {
-            const EDGE: &[&str] = &["(-9223372036854775807 - 1)", "-1", "0", "1", "9223372036854775807"];
+            const EDGE: &[&str] = &["(-9223372036854775807 - 1)", "-1", "0", "1", "2", "9223372036854775807"];
             let combos: Vec<Vec<&str>> = if req.len() == 1 {
                 EDGE.iter().map(|a| vec![*a]).collect()
             } else {
